@@ -144,7 +144,7 @@ func runChannels(a *Analyzer, r *Results) {
 					"the hand-off send on "+lbl+" can be skipped (default arm / extra arms)", "X")
 				if okH {
 					okO, why := overwriteIdiom(op.fn, x, st.Chan, c)
-					r.Check("U7.overwrite", props("C14", "C05"), "before the hand-off send a full buffer is emptied by one non-blocking receive (newest value replaces the pending one), so the single-producer send cannot block", funcID(op.fn)+"|"+lbl, a.P.InstrPos(op.in), okO, why, "X")
+					r.Check("U7.overwrite", props("C14", "C05", "C15"), "before the hand-off send a full buffer is emptied by one non-blocking receive (newest value replaces the pending one), so the single-producer send cannot block", funcID(op.fn)+"|"+lbl, a.P.InstrPos(op.in), okO, why, "X")
 				}
 			}
 		case *ssa.Send:
